@@ -408,6 +408,31 @@ type TUnsChanSkip struct {
 	C        chan int `kmip:"-,skip"`
 	A        int32    `kmip:"BATCH_COUNT"`
 }
+type TUnsArrI32 struct {
+	kmip.Tag `kmip:"REQUEST_HEADER"`
+	A        [3]int32 `kmip:"BATCH_COUNT"`
+}
+type TUnsArrI32Req struct {
+	kmip.Tag `kmip:"REQUEST_HEADER"`
+	A        [1]int32 `kmip:"BATCH_COUNT,required"`
+}
+type TUnsArrStruct struct {
+	kmip.Tag `kmip:"REQUEST_HEADER"`
+	V        [2]kmip.ProtocolVersion `kmip:"PROTOCOL_VERSION"`
+}
+type TUnsArrBytes struct {
+	kmip.Tag `kmip:"REQUEST_HEADER"`
+	S        [4]byte `kmip:"USERNAME"`
+	A        int32   `kmip:"BATCH_COUNT"`
+}
+type TUnsArrText struct {
+	kmip.Tag `kmip:"REQUEST_HEADER"`
+	S        [2]string `kmip:"USERNAME,required"`
+}
+type TUnsArrIface struct {
+	kmip.Tag `kmip:"REQUEST_HEADER"`
+	Vs       [2]interface{} `kmip:"BATCH_COUNT"`
+}
 
 // c13Unsupported: each of them as Encode value (zero and populated) and as Decode target of streams that carry an item where
 // the odd field sits: an error or an orderly result, never a panic
@@ -421,11 +446,14 @@ func c13Unsupported(r *Result) {
 		}
 		return append([]byte{0x42, 0x00, 0x77, 1, 0, 0, 0, byte(len(body))}, body...)
 	}
-	streams := [][]byte{wrap(i32), wrap(txt), wrap(i32, txt), wrap(txt, i32), wrap(i32, i32), wrap()}
+	pv := []byte{0x42, 0x00, 0x69, 1, 0, 0, 0, 32, 0x42, 0x00, 0x6a, 2, 0, 0, 0, 4, 0, 0, 0, 1, 0, 0, 0, 0, 0x42, 0x00, 0x6b, 2, 0, 0, 0, 4, 0, 0, 0, 4, 0, 0, 0, 0}
+	streams := [][]byte{wrap(i32), wrap(txt), wrap(i32, txt), wrap(txt, i32), wrap(i32, i32), wrap(), wrap(pv), wrap(pv, pv), wrap(pv, pv, pv), wrap(i32, i32, i32, i32), wrap(txt, txt, txt)}
 	five := int32(5)
 	values := []interface{}{TUnsMapAny{}, TUnsMapAny{A: 1, M: map[string]int{"a": 1}}, TUnsFloatAny{F: 1.5, A: 1}, TUnsPtrAnyReq{}, TUnsPtrAnyReq{P: &five},
 		TUnsSliceAny{S: []float64{1}}, TUnsMapNamed{M: map[string]int{"a": 1}}, TUnsChanSkip{C: make(chan int), A: 1},
-		TUnsIfaceOne{V: int32(7)}, TUnsIfaceMany{Vs: []interface{}{int32(7), int32(8)}}, TUnsIfaceMany{}, TUnsIfaceManyReq{A: "abc", Vs: []interface{}{int32(7)}}}
+		TUnsIfaceOne{V: int32(7)}, TUnsIfaceMany{Vs: []interface{}{int32(7), int32(8)}}, TUnsIfaceMany{}, TUnsIfaceManyReq{A: "abc", Vs: []interface{}{int32(7)}},
+		TUnsArrI32{}, TUnsArrI32{A: [3]int32{1, 2, 3}}, TUnsArrI32Req{A: [1]int32{1}}, TUnsArrStruct{}, TUnsArrStruct{V: [2]kmip.ProtocolVersion{{Major: 1, Minor: 4}, {Major: 1, Minor: 2}}},
+		TUnsArrBytes{S: [4]byte{1, 2, 3, 4}, A: 1}, TUnsArrText{S: [2]string{"a", "b"}}, TUnsArrIface{}, TUnsArrIface{Vs: [2]interface{}{int32(7), int32(8)}}}
 	for _, v := range values {
 		for _, byPtr := range []bool{false, true} {
 			key := fmt.Sprintf("Encode of %T (pointer=%v) %+v", v, byPtr, v)
